@@ -63,6 +63,21 @@ class Poison:
         pass
 
 
+# storage kinds: what sits behind the DB
+#   file / map            FileStorage / MappingStorage behind the MVCC adapter
+#   hexfile / hexmap      the same wrapped in ZODB.tests.hexstorage.HexStorage (record transform; its
+#                         invalidateCache() is the storage-side route into MVCCAdapter.invalidateCache)
+#   bwfile / bwmap        wrapped in ZODB.blob.BlobStorage (blob support by proxy, 'lawn' or 'bushy')
+#   demo / demofile       DemoStorage(base=MappingStorage, changes=MappingStorage | FileStorage)
+#   demobase              DemoStorage over a base that already holds the objects (oracle only)
+#   mvccmap               ZODB.tests.MVCCMappingStorage: native IMVCCStorage, no adapter (oracle only)
+FILE_KINDS = ('file', 'hexfile', 'bwfile', 'demofile')          # a FileStorage does the commits
+UNDO_KINDS = ('file', 'hexfile')
+BLOB_KINDS = ('file', 'bwfile', 'bwmap')
+KIND_POOL = ['file'] * 6 + ['map'] * 5 + ['mvccmap'] * 2 + ['hexfile', 'hexmap', 'bwfile', 'bwmap', 'demo',
+                                                             'demofile', 'demobase']
+
+
 # ---------------------------------------------------------------- generator
 def gen_program(rng, role, nobj, nops, blobs=()):
     ops = []
@@ -123,11 +138,12 @@ def gen_program(rng, role, nobj, nops, blobs=()):
 def gen_case(rng, thorough, idx):
     nconn = rng.choice([2, 2, 3, 3, 4] if thorough else [2, 2, 3, 3])
     nobj = rng.choice([2, 3, 4, NOBJ_MAX])
-    kind = rng.choice(['file', 'file', 'file', 'map', 'map', 'map', 'mvccmap'])
-    blobs = sorted(rng.sample(range(nobj), rng.choice([1, 1, 2]))) if kind == 'file' and rng.random() < 0.35 else []
+    kind = rng.choice(KIND_POOL)
+    blobs = sorted(rng.sample(range(nobj), rng.choice([1, 1, 2]))) \
+        if kind in BLOB_KINDS and rng.random() < (0.35 if kind == 'file' else 0.8) else []
     # a second database whose objects are used through get_connection(): the group of connections
     # goes back to the pool together and is handed to whichever thread opens next
-    nobj2 = rng.choice([1, 2, 3]) if kind != 'mvccmap' and rng.random() < 0.2 else 0
+    nobj2 = rng.choice([1, 2, 3]) if kind in ('file', 'map') and rng.random() < 0.25 else 0
     roles = ['writer', 'reader'] + [rng.choice(['writer', 'reader', 'mixed']) for _ in range(nconn - 2)]
     progs = {}
     for t, role in enumerate(roles):
@@ -135,13 +151,20 @@ def gen_case(rng, thorough, idx):
         progs['t%d' % t] = gen_program(rng, role2, nobj + nobj2, rng.choice([4, 6, 8, 10]), blobs)
         if nobj2 and rng.random() < 0.7:
             progs['t%d' % t][rng.randrange(len(progs['t%d' % t]) + 1):0] = [['x']]
-    if kind != 'file' or nobj2:
+    if kind not in UNDO_KINDS or nobj2:
         progs = {t: [op for op in ops if op[0] not in ('u', 'um')] for t, ops in progs.items()}
-    pack = kind == 'file' and rng.random() < (0.25 if thorough else 0.15)
+    pack = kind in ('file', 'hexfile') and rng.random() < (0.25 if thorough else 0.15)
+    # construction: direct constructors with non-default options, storage from a config string, or the
+    # whole database from a config string (then the trace mapping is off: oracle only)
+    ctor = rng.choice(['direct', 'direct', 'storage-config', 'db-config']) if kind in ('file', 'map', 'demo') \
+        and not nobj2 else 'direct'
+    cache_size = rng.choice([400, 400, 1, 2, 5])
+    pool = rng.choice([7, 7, 7, 7, 7, 7, 7, 1, 2])
     if pack:
         progs['pk'] = [['pack']] * rng.choice([1, 1, 2])
     return dict(kind=kind, nobj=nobj, progs=progs, seed=rng.randrange(1 << 30),
-                stick=rng.choice([0.0, 0.3, 0.6, 0.8, 0.9]), pool=7,
+                stick=rng.choice([0.0, 0.3, 0.6, 0.8, 0.9]), pool=pool, ctor=ctor, cache_size=cache_size,
+                layout=rng.choice(['bushy', 'lawn']),
                 explicit=rng.random() < 0.2, garbage=rng.choice([0, 1, 2]),
                 clock_step=rng.choice([1.0, 1.0, 0.0, 0.0, 0.001]), blobs=blobs, nobj2=nobj2,
                 pct=[rng.choice([1, 2, 3]), rng.choice([100, 300, 800])] if rng.random() < 0.35 else None)
@@ -650,48 +673,117 @@ def run_case(case, tmp, with_trace=False, schedule=None):
         clk = es.enter_context(clock.scripted())
         es.enter_context(sched.installed())
         rec = None
-        if case['kind'] == 'file':
+        kind = case['kind']
+        ctor = case.get('ctor', 'direct')
+        if kind in FILE_KINDS:
             rec = vfs.Recorder(d)
             es.enter_context(vfs.install(rec))
             rec.record = lambda ev: None        # the byte trace is not needed here
-            st = FileStorage(os.path.join(d, 'Data.fs'),
-                             blob_dir=os.path.join(d, 'blobs') if case.get('blobs') else None)
-        elif case['kind'] == 'mvccmap':
+        fspath, blobdir = os.path.join(d, 'Data.fs'), os.path.join(d, 'blobs')
+
+        import ZODB.config as zconfig
+
+        def from_config(text):
+            return zconfig.storageFromString(text)
+
+        if kind == 'file':
+            if ctor == 'storage-config':
+                st = from_config('<filestorage>\n path %s\n create true\n read-only false\n%s</filestorage>\n'
+                                 % (fspath, ' blob-dir %s\n' % blobdir if case.get('blobs') else ''))
+            elif ctor == 'db-config':
+                st = None
+            else:
+                st = FileStorage(fspath, create=True, blob_dir=blobdir if case.get('blobs') else None)
+        elif kind == 'map':
+            st = None if ctor == 'db-config' else \
+                from_config('<mappingstorage>\n name m\n</mappingstorage>\n') if ctor == 'storage-config' \
+                else MappingStorage()
+        elif kind == 'mvccmap':
             from ZODB.tests.MVCCMappingStorage import MVCCMappingStorage
             st = MVCCMappingStorage()
+        elif kind in ('hexfile', 'hexmap'):
+            from ZODB.tests.hexstorage import HexStorage
+            st = HexStorage(FileStorage(fspath) if kind == 'hexfile' else MappingStorage())
+        elif kind in ('bwfile', 'bwmap'):
+            from ZODB.blob import BlobStorage
+            st = BlobStorage(blobdir, FileStorage(fspath) if kind == 'bwfile' else MappingStorage(),
+                             layout=case.get('layout', 'bushy'))
+        elif kind in ('demo', 'demofile', 'demobase'):
+            from ZODB.DemoStorage import DemoStorage
+            if ctor == 'storage-config':
+                st = from_config('<demostorage>\n</demostorage>\n')
+            elif ctor == 'db-config':
+                st = None
+            else:
+                st = DemoStorage(base=MappingStorage('base'),
+                                 changes=FileStorage(fspath) if kind == 'demofile' else MappingStorage('changes'))
         else:
-            st = MappingStorage()
+            raise InfraError('unknown storage kind %r' % kind)
         nobj2 = case.get('nobj2', 0)
         st2 = None
         if nobj2:
-            st2 = FileStorage(os.path.join(d, 'two.fs')) if case['kind'] == 'file' else MappingStorage('two')
+            st2 = FileStorage(os.path.join(d, 'two.fs')) if kind == 'file' else MappingStorage('two')
             run.st_off[id(st2)] = 1 << 40
-        run.st_off[id(st)] = 0
-        if case['kind'] == 'mvccmap':
+        if st is not None:
+            run.st_off[id(st)] = 0
+        if kind == 'mvccmap':
             run.st_off[id(st._data)] = 0
-        # the Lean model covers one database behind the MVCC adapter
-        with_trace = with_trace and not nobj2 and case['kind'] != 'mvccmap'
+        nthreads = len([n for n in case['progs'] if n != 'pk'])
+        pool, cache_size = case.get('pool', 7), case.get('cache_size', 400)
+        # the Lean model covers one database behind the MVCC adapter whose storage holds the whole
+        # history and whose pool never discards a connection
+        with_trace = with_trace and not nobj2 and kind not in ('mvccmap', 'demobase') and ctor != 'db-config' \
+            and pool >= nthreads + 2
         hooks = []
         if with_trace:
             import c02_trace
+            core = st.changes if kind.startswith('demo') else st     # the storage whose locks order things
             run.tracer = c02_trace.Tracer(run)
             run.tracer.roles['adapter'] = adapter_role()
-            run.tracer.roles['storage'] = st._lock.role
-            run.tracer.roles['commit'] = st._commit_lock.role
-            run.tracer.roles['pool'] = st._files._cond.role if hasattr(st, '_files') else None
-            run.tracer.st = st
+            run.tracer.roles['storage'] = core._lock.role
+            run.tracer.roles['commit'] = core._commit_lock.role
+            run.tracer.roles['pool'] = core._files._cond.role if hasattr(core, '_files') else None
+            run.tracer.st = core
             es.enter_context(c02_trace.installed(run.tracer))
             hooks.append(run.tracer.hook)
         es.enter_context(instrumented(run))
-        box = {}
+        box = dict(st=st)
+
+        def new_object(i):
+            return Blob(b'0') if i in case.get('blobs', ()) else MinPO(0)
 
         def setup():
-            if nobj2:
+            st = box['st']
+            if kind == 'demobase':
+                # the objects live in the base; everything the case commits goes to the changes
+                from ZODB.DemoStorage import DemoStorage
+                base = MappingStorage('base')
+                bdb = ZODB.DB(base)
+                btm = transaction.TransactionManager()
+                bc = bdb.open(btm)
+                for i in range(case['nobj']):
+                    bc.root()['k%d' % i] = new_object(i)
+                btm.commit()
+                bc.close()
+                box['keep'] = bdb               # (not closed: closing it would close the base)
+                st = box['st'] = DemoStorage(base=base, changes=MappingStorage('changes'))
+            if ctor == 'db-config':
+                inner = {'file': '<filestorage>\n path %s\n%s</filestorage>'
+                                 % (fspath, ' blob-dir %s\n' % blobdir if case.get('blobs') else ''),
+                         'map': '<mappingstorage>\n</mappingstorage>',
+                         'demo': '<demostorage>\n</demostorage>'}[kind]
+                db = box['db'] = zconfig.databaseFromString(
+                    '<zodb>\n pool-size %d\n cache-size %d\n historical-pool-size 1\n %s\n</zodb>\n'
+                    % (pool, cache_size, inner))
+                st = box['st'] = db.storage
+            elif nobj2:
                 dbs = {}
-                db = box['db'] = ZODB.DB(st, pool_size=case.get('pool', 7), databases=dbs, database_name='one')
-                box['db2'] = ZODB.DB(st2, pool_size=case.get('pool', 7), databases=dbs, database_name='two')
+                db = box['db'] = ZODB.DB(st, pool_size=pool, cache_size=cache_size, databases=dbs,
+                                         database_name='one')
+                box['db2'] = ZODB.DB(st2, pool_size=pool, databases=dbs, database_name='two')
             else:
-                db = box['db'] = ZODB.DB(st, pool_size=case.get('pool', 7))
+                db = box['db'] = ZODB.DB(st, pool_size=pool, cache_size=cache_size,
+                                         large_record_size=1 << 20)
             tm0 = transaction.TransactionManager()
             c = db.open(tm0)
             root = c.root()
@@ -703,16 +795,17 @@ def run_case(case, tmp, with_trace=False, schedule=None):
                     c2.root()['k%d' % i] = o
             if run.tracer:
                 run.tracer.write('setup', c, 0, 0)
-            for i in range(case['nobj']):
-                o = Blob(b'0') if i in case.get('blobs', ()) else MinPO(0)
-                c.add(o)
-                root['k%d' % i] = o
+            if kind != 'demobase':
+                for i in range(case['nobj']):
+                    o = new_object(i)
+                    c.add(o)
+                    root['k%d' % i] = o
+                    if run.tracer:
+                        run.tracer.write('setup', c, u64(o._p_oid), 0)
                 if run.tracer:
-                    run.tracer.write('setup', c, u64(o._p_oid), 0)
-            if run.tracer:
-                run.tracer.pre_commit('setup', c)
-            tm0.commit()
-            for g in range(case.get('garbage', 0)):
+                    run.tracer.pre_commit('setup', c)
+                tm0.commit()
+            for g in range(case.get('garbage', 0) + (1 if kind == 'demobase' else 0)):
                 for i in range(case['nobj']):
                     set_value(root['k%d' % i], 1000000 + g)
                     if run.tracer:
@@ -730,7 +823,7 @@ def run_case(case, tmp, with_trace=False, schedule=None):
         r0 = s0.run(timeout=60)
         if r0['deadlock'] or r0['errors']:
             raise InfraError('C02 set-up failed: %r' % (r0['errors'],))
-        db = box['db']
+        db, st = box['db'], box['st']
         setup_tid = u64(st.lastTransaction())
         t_pack = clk.now + 0.5
         clk.now += 1.0
@@ -749,7 +842,8 @@ def run_case(case, tmp, with_trace=False, schedule=None):
         s.hooks = list(hooks)
         if rec is not None:
             sched.vfs_hook(rec)
-            fp = st._files
+        fp = getattr(st.changes if kind.startswith('demo') else st, '_files', None)
+        if fp is not None:
 
             def pool_hook(t, kind, label):      # [I] FilePool: no reader file out while `writing`
                 if fp.writing and fp._out and not run.pool_bad:
@@ -863,7 +957,9 @@ def nontrivial(obs):
 def canonical(case):
     return dict(kind=case['kind'], nobj=case['nobj'], progs=case['progs'], seed=case['seed'],
                 stick=case['stick'], explicit=case['explicit'], clock_step=case.get('clock_step', 1.0),
-                pct=case.get('pct'), blobs=case.get('blobs', []), nobj2=case.get('nobj2', 0))
+                pct=case.get('pct'), blobs=case.get('blobs', []), nobj2=case.get('nobj2', 0),
+                ctor=case.get('ctor'), cache_size=case.get('cache_size'), pool=case.get('pool'),
+                layout=case.get('layout'))
 
 
 # ---------------------------------------------------------------- batches (multiprocessing)
